@@ -36,7 +36,7 @@ def sh(cmd, cwd=None, env=None, timeout=None, logfile=None):
         e.update(env)
     t0 = time.time()
     import signal
-    proc = subprocess.Popen(cmd, cwd=cwd, env=e, stdout=subprocess.PIPE, stderr=subprocess.STDOUT,
+    proc = subprocess.Popen(cmd, cwd=cwd, env=e, stdin=subprocess.DEVNULL, stdout=subprocess.PIPE, stderr=subprocess.STDOUT,
                             text=True, errors="replace", start_new_session=True)
     try:
         out, _ = proc.communicate(timeout=timeout)
@@ -270,7 +270,7 @@ def run_kani(pid, part, tier, jobs):
     for _attempt in range(2):
         # transient cargo failure seen under load ("failed to run `rustc` to learn about
         # target-specific information"): retry, it is not a verdict
-        if os.path.exists(jpath) or "Failed to get cargo metadata" not in text:
+        if os.path.exists(jpath) or "learn about target-specific information" not in text:
             break
         time.sleep(20)
         rc, text, dt2 = sh(cmd, cwd=os.path.join(root, crate_dir), timeout=total_to, logfile=lpath)
